@@ -308,7 +308,19 @@ pub fn run(tier: &str, prop: Prop) -> i32 {
             record(&mut rep, "whole-chart", &c, what, b);
         }
     }
-    rep.sub("whole-chart", "a different 3-state pattern on every one of the 25 rows at once (half of them with single combos knocked out to create leftovers), the full 1326-combo range with 1, 2 and 3 weight classes, and the empty range", nk + extra, nk + extra, false, json!({}));
+    // long texts: wide ranges in which no two combos share a weight (nothing merges: one token per combo, eight or
+    // nine weight digits each - the full range prints as 1,326+ tokens and well over 16 KiB)
+    for n in [100usize, 400, 700, 1000, 1200, 1326] {
+        let mut c = Contents::new();
+        for (i, cb) in all_combos().into_iter().enumerate().take(n) {
+            c.insert(cb, bits((i as f32 + 1.0) / 1327.0));
+        }
+        extra += 1;
+        if let Some(b) = check(prop, &c) {
+            record(&mut rep, "whole-chart", &c, what, b);
+        }
+    }
+    rep.sub("whole-chart", "a different 3-state pattern on every one of the 25 rows at once (half of them with single combos knocked out to create leftovers), the full 1326-combo range with 1, 2 and 3 weight classes, the empty range, and the first 100..1326 combos each with a weight of its own (up to 22 KB of text)", nk + extra, nk + extra, false, json!({}));
 
     // (iv) weights
     let ws = weight_list();
